@@ -61,6 +61,32 @@ def join_task_traces(traces):
     return out
 
 
+class ObjMap:
+    """object address -> (block, label), valid for ONE object lifetime. Addresses are reused after an operator is freed, and
+    the primitives of other operator kinds emit the same events: a DelayedPartitionCount is set exactly once and a
+    PartitionWakers initialised exactly once in its life, so a second CountSet / WakersInit on a registered address
+    means a new object lives there now and the registration is dropped."""
+
+    def __init__(self):
+        self.m, self.init_seen = {}, set()
+
+    def register(self, addr, blk, lab):
+        self.m[addr] = (blk, lab)
+        self.init_seen.discard(addr)
+
+    def lookup(self, e):
+        addr = e.get("obj")
+        if addr not in self.m:
+            return None
+        if e["ev"] in ("CountSet", "WakersInit"):
+            if addr in self.init_seen:
+                del self.m[addr]
+                self.init_seen.discard(addr)
+                return None
+            self.init_seen.add(addr)
+        return self.m[addr]
+
+
 HJ_LABELS = ("rem_ins", "rem_prob", "pend_ins", "pend_prob", "pend_drain")
 
 
@@ -68,7 +94,7 @@ def hashjoin_traces(events, failed_stmts):
     """TraceHashJoin.tla lines for one vdriver case: one block per hash join operator instance.
     An OpInit starts a new instance at that operator address; object addresses resolve to the
     most recent instance that registered them."""
-    blocks, cur_of_op, obj2 = [], {}, {}
+    blocks, cur_of_op, obj2 = [], {}, ObjMap()
     norm = lambda ev, lab="", ps=(), n=0, p=0, f=(0, 0, 0), parts=0, failed=False: {
         "ev": ev, "lab": lab, "ps": list(ps), "n": n, "p": p, "f": list(f), "parts": parts, "failed": failed}
     for stmt, e in stmt_of_events(events):
@@ -78,13 +104,17 @@ def hashjoin_traces(events, failed_stmts):
             blocks.append(blk)
             cur_of_op[e["op"]] = blk
             for lab in HJ_LABELS:
-                obj2[e[lab]] = (blk, lab)
-        elif ev in ("Store", "WakeAll", "Wake") and e.get("obj") in obj2:
-            blk, lab = obj2[e["obj"]]
+                obj2.register(e[lab], blk, lab)
+        elif ev == "WakersInit":
+            obj2.lookup(e)
+        elif ev in ("Store", "WakeAll", "Wake") and obj2.lookup(e):
+            blk, lab = obj2.lookup(e)
             blk.append(norm(ev, lab, ps=e["ps"]))
-        elif ev in ("CountSet", "CountDec") and e.get("obj") in obj2:
-            blk, lab = obj2[e["obj"]]
-            blk.append(norm(ev, lab, n=e["n"]))
+        elif ev in ("CountSet", "CountDec") and e.get("obj") in obj2.m:
+            hit = obj2.lookup(e)
+            if hit:
+                blk, lab = hit
+                blk.append(norm(ev, lab, n=e["n"]))
         elif ev == "Flag" and e.get("op") in cur_of_op:
             cur_of_op[e["op"]].append(norm("Flag", e["what"], p=e.get("p", 0)))
         elif ev == "Pass" and e.get("kind") is None and e.get("op") in cur_of_op:
@@ -99,7 +129,7 @@ HA_LABELS = ("remaining_normal", "remaining_distinct_mergers", "remaining_distin
 
 def hashagg_traces(events, failed_stmts):
     """TraceHashAgg.tla lines for one vdriver case: one block per hash aggregate operator instance (as hashjoin_traces)."""
-    blocks, cur_of_op, obj2 = [], {}, {}
+    blocks, cur_of_op, obj2 = [], {}, ObjMap()
     norm = lambda ev, lab="", ps=(), n=0, p=0, c=(0, 0, 0, 0), parts=0, distinct=False, failed=False: {
         "ev": ev, "lab": lab, "ps": list(ps), "n": n, "p": p, "c": list(c), "parts": parts, "distinct": distinct, "failed": failed}
     for stmt, e in stmt_of_events(events):
@@ -109,13 +139,17 @@ def hashagg_traces(events, failed_stmts):
             blocks.append(blk)
             cur_of_op[e["op"]] = blk
             for lab in HA_LABELS:
-                obj2[e[lab]] = (blk, lab)
-        elif ev in ("Store", "WakeAll") and e.get("obj") in obj2 and obj2[e["obj"]][1].startswith("pending"):
-            blk, lab = obj2[e["obj"]]
+                obj2.register(e[lab], blk, lab)
+        elif ev == "WakersInit":
+            obj2.lookup(e)
+        elif ev in ("Store", "WakeAll") and obj2.lookup(e) and obj2.lookup(e)[1].startswith("pending"):
+            blk, lab = obj2.lookup(e)
             blk.append(norm(ev, lab, ps=e["ps"]))
-        elif ev in ("CountSet", "CountDec") and e.get("obj") in obj2 and obj2[e["obj"]][1].startswith("remaining"):
-            blk, lab = obj2[e["obj"]]
-            blk.append(norm(ev, lab, n=e["n"]))
+        elif ev in ("CountSet", "CountDec") and e.get("obj") in obj2.m:
+            hit = obj2.lookup(e)
+            if hit and hit[1].startswith("remaining"):
+                blk, lab = hit
+                blk.append(norm(ev, lab, n=e["n"]))
         elif ev == "Flush" and e.get("kind") == "hash_aggregate" and e.get("op") in cur_of_op:
             cur_of_op[e["op"]].append(norm("Flush", "finalize", p=e["p"], n=1 if e.get("locked") else 0))
         elif ev == "Pass" and e.get("kind") == "hash_aggregate" and e.get("op") in cur_of_op:
@@ -125,7 +159,7 @@ def hashagg_traces(events, failed_stmts):
 
 def sortmerge_traces(events, failed_stmts):
     """TraceSortMerge.tla lines for one vdriver case: one block per sort merge queue instance (by queue address)."""
-    blocks, cur_of_q, obj2 = [], {}, {}
+    blocks, cur_of_q, obj2 = [], {}, ObjMap()
     norm = lambda ev, ps=(), n=0, p=0, runs=0, running=0, some=False, parts=0, failed=False: {
         "ev": ev, "ps": list(ps), "n": n, "p": p, "runs": runs, "running": running, "some": some, "parts": parts, "failed": failed}
     for stmt, e in stmt_of_events(events):
@@ -134,12 +168,16 @@ def sortmerge_traces(events, failed_stmts):
             blk = [norm("MqInit", parts=e["partitions"], failed=stmt in failed_stmts)]
             blocks.append(blk)
             cur_of_q[e["q"]] = blk
-            obj2[e["count"]] = (blk, "count")
-            obj2[e["wakers"]] = (blk, "wakers")
-        elif ev in ("Store", "WakeAll") and e.get("obj") in obj2 and obj2[e["obj"]][1] == "wakers":
-            obj2[e["obj"]][0].append(norm(ev, ps=e["ps"]))
-        elif ev in ("CountSet", "CountDec") and e.get("obj") in obj2 and obj2[e["obj"]][1] == "count":
-            obj2[e["obj"]][0].append(norm(ev, n=e["n"]))
+            obj2.register(e["count"], blk, "count")
+            obj2.register(e["wakers"], blk, "wakers")
+        elif ev == "WakersInit":
+            obj2.lookup(e)
+        elif ev in ("Store", "WakeAll") and obj2.lookup(e) and obj2.lookup(e)[1] == "wakers":
+            obj2.lookup(e)[0].append(norm(ev, ps=e["ps"]))
+        elif ev in ("CountSet", "CountDec") and e.get("obj") in obj2.m:
+            hit = obj2.lookup(e)
+            if hit and hit[1] == "count":
+                hit[0].append(norm(ev, n=e["n"]))
         elif ev in ("MqAdd", "MqTake2", "MqDone", "MqFinished", "MqTakeRun") and e.get("q") in cur_of_q:
             cur_of_q[e["q"]].append(norm(ev, n=e.get("n", 0), p=e.get("p", 0), runs=e["runs"], running=e["running"], some=bool(e.get("some", False))))
     return [l for blk in blocks for l in blk]
